@@ -764,27 +764,76 @@ theorem report_model_holds (inp : Input) (ht : TableOK inp.t) (hrow : inp.rowOK)
 /-- `metadata_to_dataframe`: refuses an axis without metadata; otherwise (entries with the same
 categories in the same order, distinct column names) the frame is indexed by the IDs in order and,
 for every ID, shows every value of that ID's entry under its column, and nothing else -/
+theorem rowFor_full (cols : List String) (m : MdE) (hc : entryColumns m = cols) (hnd : cols.Nodup) :
+    rowFor cols m = entryRow m := by
+  have hl : cols.length = (entryRow m).length := by rw [entryRow_length, hc]
+  have h := lookupBy_self_map cols (entryRow m) hnd hl
+  have h2 := congrArg (List.map (fun (o : Option String) => o.getD missing)) h
+  simp only [List.map_map, Function.comp_def, Option.getD_some, List.map_id'] at h2
+  simp only [rowFor, hc]
+  exact h2
+
 theorem mdframe_model_holds (ids : List Id) (es : List MdE) (cols : List String)
     (hlen : es.length = ids.length) (hids : ids.Nodup) (hcols : cols.Nodup)
     (hhom : ∀ m ∈ es, entryColumns m = cols) :
     holdsMdFrame ids none (mdFrameM ids none) = true ∧
     holdsMdFrame ids (some es) (mdFrameM ids (some es)) = true := by
   refine ⟨by simp only [holdsMdFrame, mdFrameM]; decide, ?_⟩
-  simp only [holdsMdFrame, mdFrameM, beq_self_eq_true, List.length_map, hlen, Bool.true_and, List.all_eq_true]
-  intro ⟨id, m⟩ hm
-  have hmes : m ∈ es := (List.of_mem_zip hm).2
-  have hne : es ≠ [] := List.ne_nil_of_mem hmes
-  have hl := lookupBy_zip_mem ids es id m hids hm
-  simp only [lookupBy_map, hl, Option.map_some, mcols_homog cols es hhom hne, Bool.and_eq_true, beq_iff_eq,
-    List.all_eq_true]
-  refine ⟨⟨?_, ?_⟩, ?_⟩
-  · rw [entryRow_length, hhom m hmes]
-  · intro ⟨c, v⟩ hcv
-    rw [hhom m hmes] at hcv
-    exact lookupBy_zip_mem cols (entryRow m) c v hcols hcv
-  · intro c hc
-    rw [hhom m hmes]
-    simpa using hc
+  cases hes : es with
+  | nil =>
+    subst hes
+    have : ids = [] := List.length_eq_zero_iff.mp (by simpa using hlen.symm)
+    subst this
+    simp [holdsMdFrame, mdFrameM]
+  | cons m0 rest =>
+    rw [← hes]
+    have hne : es ≠ [] := by rw [hes]; simp
+    have hrows : es.map (rowFor cols) = es.map entryRow := by
+      apply List.map_congr_left
+      intro m hm
+      exact rowFor_full cols m (hhom m hm) hcols
+    simp only [holdsMdFrame, mdFrameM, mcols_homog cols es hhom hne, hrows, beq_self_eq_true, List.length_map, hlen,
+      Bool.true_and, Bool.and_eq_true, List.all_eq_true]
+    constructor
+    · intro ⟨id, m⟩ hm
+      have hmes : m ∈ es := (List.of_mem_zip hm).2
+      have hl := lookupBy_zip_mem ids es id m hids hm
+      simp only [lookupBy_map, hl, Option.map_some, Bool.and_eq_true, beq_iff_eq, List.all_eq_true]
+      refine ⟨⟨?_, ?_⟩, ?_⟩
+      · rw [entryRow_length, hhom m hmes]
+      · intro ⟨c, v⟩ hcv
+        rw [hhom m hmes] at hcv
+        exact lookupBy_zip_mem cols (entryRow m) c v hcols hcv
+      · intro c hc
+        rw [hhom m hmes]
+        simp [hc]
+    · intro c hc
+      rw [List.any_eq_true]
+      have hm0 : m0 ∈ es := by rw [hes]; simp
+      exact ⟨m0, hm0, by rw [hhom m0 hm0]; simpa using hc⟩
+
+/-- a list-valued category of uneven length followed by another category (the input of the repaired
+defect 6363233a): the shorter list leaves its last column missing and the following category stays in
+ITS column, whichever entry comes first -/
+theorem mdframe_ragged_keeps_columns :
+    mdFrameM ["a", "b"]
+        (some [[("taxonomy", .list ["k", "p"]), ("grp", .scalar "g1")],
+               [("taxonomy", .list ["k", "p", "c"]), ("grp", .scalar "g2")]]) =
+      .ok { index := ["a", "b"], columns := ["taxonomy_0", "taxonomy_1", "taxonomy_2", "grp"],
+            rows := [["k", "p", missing, "g1"], ["k", "p", "c", "g2"]] } ∧
+    holdsMdFrame ["a", "b"]
+      (some [[("taxonomy", .list ["k", "p"]), ("grp", .scalar "g1")],
+             [("taxonomy", .list ["k", "p", "c"]), ("grp", .scalar "g2")]])
+      (mdFrameM ["a", "b"]
+        (some [[("taxonomy", .list ["k", "p"]), ("grp", .scalar "g1")],
+               [("taxonomy", .list ["k", "p", "c"]), ("grp", .scalar "g2")]])) = true ∧
+    holdsMdFrame ["a", "b"]
+      (some [[("taxonomy", .list ["k", "p", "c"]), ("grp", .scalar "g1")],
+             [("taxonomy", .list ["k"]), ("grp", .scalar "g2")]])
+      (mdFrameM ["a", "b"]
+        (some [[("taxonomy", .list ["k", "p", "c"]), ("grp", .scalar "g1")],
+               [("taxonomy", .list ["k"]), ("grp", .scalar "g2")]])) = true := by
+  refine ⟨by decide, by decide, by decide⟩
 
 
 /-- the figures of the report, for every mode: axis sizes, truncated total, density, and the
